@@ -31,8 +31,9 @@ META = dict(
     bounds=dict(closed_form='2-4 choices, index entries any integer >= -1 (unbounded above), 1-2 rows',
                 sequential='2-3 choices, 2-4 options, every order and option sequence', linked_dv='2-3 variables'),
     outside=['that whole graphs with constraints across hierarchy levels offer exactly these architectures under both '
-             'selection-choice encoders (graph-structure quantifier); dsg_sequential covers flat (all permanent) '
-             'placements and one hierarchical and one mutually exclusive placement per type only',
+             'selection-choice encoders is a graph-structure quantifier: decided only on the placement templates (flat, '
+             'hierarchical in both id orders, mutually exclusive, conditional middle choice), at the DSG level with symbolic '
+             'histories and, as an AUXILIARY concrete check (encoder_level), through GraphProcessor with both encoders',
              'linked choices with different option counts (the documented semantics maps to the last option)',
              'linked discrete design variables with different option counts (same index impossible)',
              'permutation / non-replacing constraints over more choices than options (docs/theory.md: "require at least '
@@ -87,6 +88,9 @@ def instances(tier, seed):
             out.append(dict(label=f'dsg_sequential {t} hier k=3 n=3', kind='dsg', type=t, k=3, n=3, placement='hier'))
             out.append(dict(label=f'dsg_sequential {t} hier_rev k=3 n=3', kind='dsg', type=t, k=3, n=3, placement='hier_rev'))
             out.append(dict(label=f'dsg_sequential {t} mutex k=3 n=3', kind='dsg', type=t, k=3, n=3, placement='mutex'))
+        for enc in ('COMPLETE', 'FAST'):
+            for pl, k_, n_ in (('flat', 2, 3), ('flat', 3, 3), ('hier', 2, 3), ('hier_rev', 2, 3), ('mutex', 2, 2), ('mid_cond', 3, 4)):
+                out.append(dict(label=f'encoder_level {t} {enc} {pl} k={k_} n={n_}', kind='enc', type=t, k=k_, n=n_, placement=pl, encoder=enc))
         out.append(dict(label=f'count {t}', kind='count', type=t))
     for k in (2, 3):
         out.append(dict(label=f'linked_dv cont k={k}', kind='linked_dv', k=k, disc=None))
@@ -547,6 +551,80 @@ def _run_dsg(inst, res):
     res['sample'] = dict(harness=inst['label'], histories=n_hist, offered=sorted(got_feasible)[:10])
 
 
+def _run_enc(inst, res):
+    """AUXILIARY, concrete (not a solver verdict; DESIGN.md 1.3/11.3): on the placement templates, the architectures a
+    GraphProcessor offers under the complete and the fast selection-choice encoder - every row of get_all_discrete_x
+    (complete encoder) and the decode of every vector of the declared space - are exactly the predicate set."""
+    from adsg_core import GraphProcessor, SelChoiceEncoderType
+    t, k, n, placement, enc = inst['type'], inst['k'], inst['n'], inst['placement'], inst['encoder']
+    g, choices, opts, extra = _mk_dsg(t, k, n, placement)
+    cfg = dict(type=t, k=k, n=n, placement=placement, encoder=enc)
+    want = _dsg_oracle(t, k, n, placement)
+    try:
+        gp = GraphProcessor(g, encoder_type=SelChoiceEncoderType[enc])
+        dvs = gp.des_vars
+    except Exception as e:  # noqa
+        _viol(res, 'encoder_level', dict(kind='processor_raises', **cfg), cfg, {}, f'{type(e).__name__}: {e}', 'processor')
+        return
+
+    if len(dvs) == 0 and enc == 'FAST':
+        # every constrained choice is forced (one architecture): the fast encoder then has no design variable and its
+        # decode of the empty vector crashes - the subject of C14 (not claimed), not of the constraint semantics
+        res['status'] = SKIPPED
+        res['notes'].append('fast encoder without design variables: outside C13 (C14)')
+        return
+
+    def assignment(inst_g):
+        nodes = set(inst_g.graph.nodes)
+        tup = []
+        for i in range(k):
+            present = [j for j, o in enumerate(opts[i]) if o in nodes]
+            tup.append(present[0] if len(present) == 1 else (-1 if not present else -2))
+        return tuple(tup)
+    got, problems = set(), []
+    for x in itertools.product(*[range(d.n_opts) for d in dvs]):
+        res['obligations'] += 1
+        try:
+            inst_g, x_imp, act = gp.get_graph(list(x))
+        except Exception as e:  # noqa
+            problems.append(f'decode of {list(x)} raises {type(e).__name__}: {e}')
+            continue
+        if not (inst_g.final and inst_g.feasible):
+            problems.append(f'decode of {list(x)} is not final/feasible')
+            continue
+        a = assignment(inst_g)
+        got.add(a)
+        if a not in want:
+            problems.append(f'decode of {list(x)} gives assignment {a}, which violates the {t} predicate / activation structure')
+        else:
+            res['discharged'] += 1
+        res['validated'] += 1
+    res['obligations'] += 1
+    if got != want:
+        problems.append(f'architectures reachable by decoding: missing {sorted(want-got)[:4]} extra {sorted(got-want)[:4]}')
+    else:
+        res['discharged'] += 1
+    if enc == 'COMPLETE':
+        xs, _ = gp.get_all_discrete_x()
+        listed = set()
+        for r in np.array(xs).tolist():
+            try:
+                inst_g, _, _ = gp.get_graph(list(r))
+                listed.add(assignment(inst_g))
+            except Exception as e:  # noqa
+                problems.append(f'listed row {r} does not decode: {type(e).__name__}: {e}')
+        res['obligations'] += 1
+        if listed != want or len(xs) != len(want):
+            problems.append(f'get_all_discrete_x: {len(xs)} rows, architectures missing {sorted(want-listed)[:4]} extra {sorted(listed-want)[:4]}')
+        else:
+            res['discharged'] += 1
+    if problems:
+        _viol(res, 'encoder_level', dict(kind='encoder_level_set', what=problems[-1].split(':')[0][:40], **cfg), cfg,
+              dict(declared=[d.n_opts for d in dvs]), problems[:4], f'exactly the {len(want)} architectures of the predicate')
+    res['paths'] = max(1, len(got))
+    res['sample'] = dict(harness=inst['label'], offered=sorted(got)[:8], expected=len(want), note='auxiliary concrete check')
+
+
 def _run_count(inst, res):
     from adsg_core.graph.choice_constraints import count_n_combinations_max
     t = inst['type']
@@ -611,6 +689,12 @@ def replay(rec):
         return got != rec['expected'].get('predicate_tuples')
     if a['check'] == 'set_des_var_value':
         return c16.replay(rec)
+    if a['check'] == 'encoder_level':
+        res = new_result('replay')
+        _run_enc(dict(label='replay', **{k_: cfg[k_] for k_ in ('type', 'k', 'n', 'placement', 'encoder')}), res)
+        for v in res['violations']:
+            print(v['signature'], v['observed'])
+        return len(res['violations']) > 0
     if a['check'] in ('sequential', 'dsg_sequential'):
         inst = dict(rec['config'])
         res = new_result('replay')
